@@ -9,6 +9,8 @@ use bsvk::*;
 use serde::{Deserialize, Serialize};
 use serde_json::json;
 use std::collections::{HashMap, HashSet};
+/// fixed-key hasher state: the containers' behaviour must not depend on per-process random keys
+type Fixed = std::hash::BuildHasherDefault<std::collections::hash_map::DefaultHasher>;
 
 #[derive(Serialize, Deserialize, Hash, Clone, Debug)]
 enum Case {
@@ -118,6 +120,36 @@ fn variants<A: Sx>(x: &[A]) -> Vec<(&'static str, Vec<A>)> {
                 let mut y = x.to_vec();
                 y[i] = o;
                 v.push(("one-symbol-changed", y));
+            }
+        }
+    }
+    // the same bit pattern flipped in several machine words at once (differences that cancel when per-word
+    // differences are combined carelessly): one symbol per word in two, three or all words, and every symbol
+    let spw = (64 / A::BITS as usize).max(1);
+    if n >= 2 * spw {
+        let words = n / spw;
+        let mut sets: Vec<Vec<usize>> = vec![(0..n).collect()];
+        for i in [0, 1, spw - 1] {
+            sets.push((0..words).map(|w| w * spw + i).collect());
+            sets.push(vec![i, i + spw]);
+            if words >= 3 {
+                sets.push(vec![i, i + 2 * spw]);
+                sets.push(vec![i, i + spw, i + 2 * spw]);
+            }
+            if words >= 4 {
+                sets.push(vec![i + spw, i + 3 * spw]);
+                sets.push((0..words).step_by(2).map(|w| w * spw + i).collect());
+            }
+        }
+        for set in sets {
+            // a constant d such that code ^ d is again a (canonical) symbol code at every chosen position
+            let found = (1..(1u16 << A::BITS)).map(|d| d as u8).find(|d| set.iter().all(|&j| A::try_from_bits(x[j].to_bits() ^ d).map(|a| a.to_bits()) == Some(x[j].to_bits() ^ d)));
+            if let Some(d) = found {
+                let mut y = x.to_vec();
+                for &j in &set {
+                    y[j] = A::try_from_bits(x[j].to_bits() ^ d).unwrap();
+                }
+                v.push(("same-bit-pattern-flipped-in-several-words", y));
             }
         }
     }
@@ -417,7 +449,7 @@ fn run_g<A: SxK>(c: &Case, out: &mut Out) {
             // map / set lookups: owned keys found by borrowed slices with the same content, at this offset pair
             out.stage = "HashMap<Seq,_>::get(&SeqSlice)";
             let r = out.catch(|| {
-                let mut map: HashMap<Seq<A>, usize> = HashMap::new();
+                let mut map: HashMap<Seq<A>, usize, Fixed> = HashMap::default();
                 let mut distinct: Vec<Vec<u8>> = Vec::new();
                 for (_, y) in &vs {
                     let cy = codes(y);
@@ -439,7 +471,7 @@ fn run_g<A: SxK>(c: &Case, out: &mut Out) {
                 }
                 // Borrow<SeqSlice<A>> for &Seq<A>: a map keyed by references
                 let owned: Vec<Seq<A>> = distinct.iter().map(|cy| build(&vs.iter().find(|(_, y)| codes(y) == *cy).unwrap().1)).collect();
-                let by_ref: HashMap<&Seq<A>, usize> = owned.iter().enumerate().map(|(i, s)| (s, i)).collect();
+                let by_ref: HashMap<&Seq<A>, usize, Fixed> = owned.iter().enumerate().map(|(i, s)| (s, i)).collect();
                 for (i, cy) in distinct.iter().enumerate() {
                     let y: Vec<A> = vs.iter().find(|(_, y)| codes(y) == *cy).unwrap().1.clone();
                     let py = place(&y, s2, 2);
@@ -447,7 +479,7 @@ fn run_g<A: SxK>(c: &Case, out: &mut Out) {
                         bad.push(format!("&Seq key {} not found by the slice with the same content", show_cut(&y)));
                     }
                 }
-                let set: HashSet<Seq<A>> = vs.iter().map(|(_, y)| build(y)).collect();
+                let set: HashSet<Seq<A>, Fixed> = vs.iter().map(|(_, y)| build(y)).collect();
                 if set.len() != distinct.len() {
                     bad.push(format!("HashSet of {} distinct contents has {} members", distinct.len(), set.len()));
                 }
